@@ -752,7 +752,7 @@ def binding(ctx):
                 if len(ch) == 1:
                     a, b = ch[0][2][0], ch[0][2][1]
                     root_first = is_call(a, 'iter::once') and bool(find_calls(a, 'ItemPath::empty'))
-                    mods = any(isinstance(x, tuple) and x[0] == 'upvar' for x in walk(b)) and not any(re.search(r'Iterator::(rev|skip|take|filter|step_by)$', c_[3]) for c_ in calls_in(b))
+                    mods = any(isinstance(x, tuple) and x[0] == 'upvar' for x in walk(b)) and not any(re.search(r'Iterator::(rev|skip|take|filter|step_by|map_while|scan|take_while|skip_while|fuse|cycle)$', c_[3]) for c_ in calls_in(b))
                     # the captured module list is partition(..).1
                     cap = fb[2]
                     mods = mods and any(isinstance(x, tuple) and x[0] == 'field' and x[2] == '1' and find_calls(x, 'Iterator::partition') for c_ in cap for x in walk(c_))
@@ -903,7 +903,7 @@ def binding(ctx):
                 a_, b_ = ch[0][2][0], ch[0][2][1]
                 root_first = is_call(a_, 'iter::once') and bool(find_calls(a_, 'ItemPath::empty'))
                 chain2 = [c_[3] for c_ in calls_in(src2)]
-                plain = not any(re.search(r'Iterator::(rev|skip|take|step_by|take_while|skip_while)$', c_) for c_ in chain2)
+                plain = not any(re.search(r'Iterator::(rev|skip|take|step_by|take_while|skip_while|map_while|scan|fuse|cycle)$', c_) for c_ in chain2)
                 part2 = find_calls(b_, 'Iterator::partition')
                 flt2 = find_calls(b_, 'Iterator::filter')
                 mods = False
@@ -928,7 +928,7 @@ def binding(ctx):
         if len(ch) == 1:
             a, b = ch[0][2][0], ch[0][2][1]
             oks = is_call(a, 'iter::once') and any(strip(x) == ('field', ('arg', 1, 'self'), 'path') or (isinstance(x, tuple) and x[0] == 'field' and x[2] == 'path') for x in walk(a)) and \
-                bool(find_calls(b, 'Module::uses')) and not any(re.search(r'Iterator::(rev|skip|take|filter|step_by)$', c_[3]) for c_ in calls_in(e))
+                bool(find_calls(b, 'Module::uses')) and not any(re.search(r'Iterator::(rev|skip|take|filter|step_by|map_while|scan|take_while|skip_while|fuse|cycle)$', c_[3]) for c_ in calls_in(e))
     ctx.ob(['C11', 'C19', 'C13'], 'R-EXPR', 'C11-D3|scope-order', oks, 'scope() = own module path followed by the uses in source order', loc(sc[0].span) if sc else '')
     us = [f for f in P.fns.values() if f.id.endswith('module::Module::uses')]
     oku = bool(us) and len(us[0].exits()) == 1 and any(isinstance(x, tuple) and x[0] == 'field' and x[2] == 'uses' for x in walk(us[0].exits()[0]['expr']))
@@ -999,7 +999,7 @@ def confinement(ctx):
                     okc = all(re.search(r'(to_string_lossy|AsRef::as_ref|Into::into|From::from|Deref::deref|to_str|to_string|to_owned|Option::<T>::unwrap\w*|Borrow::borrow)$', c_) for c_ in inner) and \
                         any(c_.endswith('to_string_lossy') or c_.endswith('to_str') for c_ in inner)
             okfp = okc and any(c_.endswith('Path::with_extension') for c_ in chain) and any(c_.endswith('Path::iter') or c_.endswith('Path::components') for c_ in chain) and \
-                not any(re.search(r'Iterator::(rev|skip|take|filter|step_by)$', c_) for c_ in chain) and ('str', '') in list(walk(e))
+                not any(re.search(r'Iterator::(rev|skip|take|filter|step_by|map_while|scan|take_while|skip_while|fuse|cycle)$', c_) for c_ in chain) and ('str', '') in list(walk(e))
     ctx.ob(['C14', 'C19', 'C11'], 'R-EXPR', 'from_path|components-unchanged', okfp,
            'a module path is the relative file path without extension, one segment per component, each component text unchanged: %s' % det, loc(fp[0].span) if fp else '')
     # D2 keyed access only inside name resolution
@@ -1065,8 +1065,22 @@ def registration(ctx):
         ok = unreachable_without(ai, oks[0]['block'], {ins[0]['block']}) and unreachable_without(ai, oks[0]['block'], {add[0]['block']})
         ie = ai.expr_of_call(ins[0]['term'])
         # set belongs to modules[parent(path)] and the inserted key is the item's own path
-        okp = any(re.search(MAPM('get_mut'), c_[1]) for c_ in calls_in(ie[2][0])) and bool(find_calls(ie[2][0], 'ItemPath::parent')) and \
-            any(isinstance(x, tuple) and x[0] == 'field' and x[2] == 'definition_paths' for x in walk(ie[2][0]))
+        gms = [c_ for c_ in calls_in(ie[2][0]) if re.search(MAPM('get_mut'), c_[1])]
+        key_is_parent = False
+        if len(gms) == 1:
+            # the module is looked up under exactly path.parent() (seen through `?`, context and reference adapters), not under
+            # something computed from it
+            kx = strip(gms[0][2][1])
+            while True:
+                if kx[0] == 'try' or (kx[0] == 'payload' and kx[2] in ('Some', 'Ok', 'Continue')):
+                    kx = strip(kx[1])
+                elif kx[0] == 'call' and kx[2] and (kx[3].endswith('Context::with_context') or kx[3].endswith('Context::context') or
+                                                    re.search(r'(::as_ref|::deref|::borrow|Option::<T>::(ok_or|ok_or_else|unwrap|expect))$', kx[1])):
+                    kx = strip(kx[2][0])
+                else:
+                    break
+            key_is_parent = is_call(kx, 'ItemPath::parent') and strip(kx[2][0])[0] == 'field' and strip(kx[2][0])[2] == 'path' and strip(strip(kx[2][0])[1])[0] == 'arg'
+        okp = key_is_parent and any(isinstance(x, tuple) and x[0] == 'field' and x[2] == 'definition_paths' for x in walk(ie[2][0]))
         key = strip(ie[2][1])
         okk = key[0] == 'field' and key[2] == 'path' and strip(key[1])[0] == 'arg'
         ae = ai.expr_of_call(add[0]['term'])
